@@ -637,3 +637,15 @@ Section IndepTables.
     eapply Permutation_in; [apply Permutation_sym; exact Hp|exact Ht].
   Qed.
 End IndepTables.
+
+(** ** permuting the input measurements never changes the content of a cell *)
+Theorem line_perm_cell_invariant ms ms' t r c :
+  Permutation ms ms' ->
+  Permutation (lookup_vals (build ms) t r c) (lookup_vals (build ms') t r c).
+Proof.
+  intros Hp. rewrite !cell_sample_exact. apply Permutation_map.
+  induction Hp as [|x l l' Hp IH|x y l|l l' l'' Hp1 IH1 Hp2 IH2]; cbn [filter]; auto.
+  - destruct (m_is t r c x); auto.
+  - destruct (m_is t r c x), (m_is t r c y); auto. apply perm_swap.
+  - now rewrite IH1.
+Qed.
